@@ -203,6 +203,8 @@ def build_u123(repo, canary=None):
         raise WeaveError("lost anchor: R7 operands of the eval_binary call in DeepEx::eval_relaxed")
     frame = u.directives("deep site frame")
     head = [d for d in frame if d["kind"] == "text"][0]["text"]
+    if u.canary == "deep site frame":
+        head = head.replace("/*CANARY*/", "false,")
     body = weave_fn("fn frame() {\n" + t + "\n}", [d for d in frame if d["kind"] != "text"], "deep site frame")
     inner = body[body.index("{") + 1: body.rindex("}")]
     u.emit_raw(head + "\n{" + inner + "\n    binary_evaluation\n}", {"kind": "repo", "file": site.file, "line": site.line})
